@@ -356,3 +356,10 @@ def run(case):
                         out.fail(f"independent:field_{em}_differs", f"{got[:3]} vs {want[:3]}")
                         break
     return out
+
+
+# rejected calls that run before every case (vlib/faults.py): nothing they leave behind - module state, library options,
+# stray files - may make the valid calls of the case violate the statement
+from vlib import faults as _faults  # noqa: E402
+
+fault_calls = _faults.for_property(ID)
